@@ -1,7 +1,11 @@
 import CattrsModel.Conv.Driver
 import CattrsModel.FieldConv.Model
+import CattrsModel.FieldConv.History
 /-!
-# Line-protocol operation of the field-converter model (driver only; no theorem depends on this file)
+# Line-protocol operations of the field-converter model (driver only; no theorem depends on this file)
+
+`FIELDCONV` (below), `FIELDHIST` (one converter over a history of registrations / uses / copies: `History.lean`) and
+`FIELDCYCLE` (reference cycles: `Disp.cycle` / `Handler.late`) — the latter two are described where they are defined.
 
 `FIELDCONV <world> <fcfg> (fields <field>…) <payload>`
 
@@ -31,6 +35,8 @@ inductive FTy where
   | unsup
   | optUnsup
   | broken
+  | ht (j : Nat)      -- history stream: a plain class that has a hook only once one was registered (`FIELDHIST`)
+  | link (i : Nat)    -- cycle stream: the type of the `link` field of class `i` of a reference cycle (`FIELDCYCLE`)
 
 structure DCfg where
   fc : FCfg
@@ -54,6 +60,8 @@ def drvEnv (w : World) (c : DCfg) : Env FTy :=
       | .unsup => if c.legacy then .raiseError else .notFound
       | .optUnsup => .fn (fun x => match x with | .none => .ok .none | _ => .shnf)
       | .broken => .lookupFails
+      | .ht _ => if c.legacy then .raiseError else .notFound
+      | .link _ => .notFound
     construct := fun t x =>
       match t with
       | .sup ty => runHook w c.fc ty x
@@ -82,6 +90,8 @@ def ffOfSexp : Sexp → Option (FField FTy)
         | .atom "optunsup" => some (some FTy.optUnsup)
         | .atom "broken" => some (some FTy.broken)
         | .list [.atom "ty", t] => (tyOfSexp t).map (fun t => some (FTy.sup t))
+        | .list [.atom "ht", j] => (atomNat? j).map (fun j => some (FTy.ht j))
+        | .list [.atom "link", i] => (atomNat? i).map (fun i => some (FTy.link i))
         | _ => Option.none)
       let conv ← (match conv with
         | .atom "-" => some Option.none
@@ -118,8 +128,141 @@ def replyInst (r : Option Inst) : Sexp :=
     let s := sexpOfObj (.inst 0 fs)
     if hasMark s.toString then .atom "unmodelled" else .list [.atom "ok", s]
 
+/-! ### `FIELDHIST`: one converter over time (model `FieldConv/History.lean`)
+
+`FIELDHIST <fcfg> (classes (cls <field>…)…) (steps <step>…)`, `<step>` = `(reg <j>)` | `(copy)` | `(use <class index> <payload>)`;
+field types additionally `(ht <j>)`.  The k-th registration for `ht j` installs the hook `x ↦ ("HVal", j, k, x)` (raising on
+the string "boom").  Reply `(r <outcome>…)`, one outcome per `use` (dict strategy only). -/
+
+def emptyWorld : World := { classes := [], enums := [] }
+
+def histHook (j v : Nat) : Obj → HR
+  | .str "boom" => .fail
+  | x => .ok (.coll .tuple [.str "HVal", .int (Int.ofNat j), .int (Int.ofNat v), x])
+
+def histEnvAt (c : DCfg) (regs : List Nat) : Env FTy :=
+  let base := drvEnv emptyWorld c
+  { base with disp := fun t =>
+      match t with
+      | .ht j => (match regs.count j with
+          | 0 => base.disp (.ht j)
+          | v => .fn (histHook j v))
+      | t => base.disp t }
+
+def histRun (c : DCfg) (world : Nat → List (FField FTy)) : List (Step Nat) → CState Nat FTy → List Sexp
+  | [], _ => []
+  | .use i kvs :: rest, st =>
+    let r := useStep c.fc world (histEnvAt c) st i kvs
+    (if (rawsDict (world i) kvs).any (fun a => unmodelledField emptyWorld c.fc a.1 a.2) then .atom "unmodelled"
+     else replyInst r.2) :: histRun c world rest r.1
+  | s :: rest, st => histRun c world rest (stepWith true c.fc world (histEnvAt c) st s)
+
+def stepOfSexp : Sexp → Option (Step Nat)
+  | .list [.atom "reg", j] => (atomNat? j).map .reg
+  | .list [.atom "copy"] => some .copy
+  | .list [.atom "use", i, p] => do
+      let i ← atomNat? i
+      match (← objOfSexp p) with
+      | .dict kvs => (strKeys kvs).map (.use i)
+      | _ => Option.none
+  | _ => Option.none
+
+def clsOfSexp : Sexp → Option (List (FField FTy))
+  | .list (.atom "cls" :: ffs) => ffs.mapM ffOfSexp
+  | _ => Option.none
+
+/-! ### `FIELDCYCLE`: reference cycles (`Disp.cycle`, `Handler.late`, `Env.late`)
+
+`FIELDCYCLE <fcfg> (cycle (c <wrap> <link has K> <v has K>)…) <entry> <payload>`: class `i` has `v: int` and
+`link: <wrap>[class (i+1) mod n] = None`; the lookup for the type of a `link` field ends in a `RecursionError`
+(`Disp.cycle`), at call time `c.structure(x, t)` (`Env.late`) is the hook of the wrapper around the next class. -/
+
+def hrList (f : Obj → HR) : List Obj → Option (List Obj)
+  | [] => some []
+  | x :: xs => match (f x).toOption, hrList f xs with
+    | some v, some vs => some (v :: vs)
+    | _, _ => Option.none
+
+def hrVals (f : Obj → HR) : List (Obj × Obj) → Option (List (Obj × Obj))
+  | [] => some []
+  | (k, x) :: xs => match k, (f x).toOption, hrVals f xs with
+    | .str k, some v, some vs => some ((.str k, v) :: vs)
+    | _, _, _ => Option.none
+
+def ofOpt : Option Obj → HR
+  | some v => .ok v
+  | Option.none => .fail
+
+/-- the structure hook of `<wrap>[C]`, given the hook `f` of `C` -/
+def wrapApply (c : DCfg) (wrap : String) (f : Obj → HR) (x : Obj) : HR :=
+  let dictOf (g : Obj → HR) (x : Obj) : HR := match x with
+    | .dict kvs => ofOpt ((hrVals g kvs).map .dict)
+    | _ => .fail
+  let listOf (k : CK) (g : Obj → HR) (x : Obj) : HR := match x with
+    | .coll .list xs => ofOpt ((hrList g xs).map (.coll k))
+    | _ => .fail
+  if wrap ∈ ["bare", "final", "annotated", "newtype", "alias", "annotated-newtype"] then f x
+  else if wrap ∈ ["optional", "pep604"] then (match x with | .none => .ok .none | x => f x)
+  else if wrap ∈ ["dict", "mapping", "dict-newtype"] then dictOf f x
+  else if wrap = "optional-dict" then (match x with | .none => .ok .none | x => dictOf f x)
+  else if wrap ∈ ["list", "sequence"] then listOf .list f x
+  else if wrap = "tuple-var" then listOf .tuple f x
+  else if wrap = "dict-list" then dictOf (listOf .list f) x
+  else if wrap = "tuple2" then (match x with
+    | .coll .list [a, b] => (match (f a).toOption, (runHook emptyWorld c.fc .int b).toOption with
+      | some va, some vb => .ok (.coll .tuple [va, vb])
+      | _, _ => .fail)
+    | _ => .fail)
+  else .fail
+
+def cycFieldsOf (spec : List (String × Bool × Bool)) (i : Nat) : List (FField FTy) :=
+  match spec[i]? with
+  | Option.none => []
+  | some (_, lk, vk) =>
+    [ { name := "v", ty := some (.sup .int), conv := if vk then convOf "tag" "K" else Option.none, dflt := Option.none },
+      { name := "link", ty := some (.link i), conv := if lk then convOf "tag" "K" else Option.none, dflt := some .none } ]
+
+def cycStruct (c : DCfg) (spec : List (String × Bool × Bool)) : Nat → Nat → Obj → HR
+  | 0 => fun _ _ => .fail
+  | fuel + 1 => fun i raw =>
+    match raw with
+    | .dict kvs =>
+      match strKeys kvs with
+      | some skvs =>
+        let base := drvEnv emptyWorld c
+        let env : Env FTy := { base with
+          disp := fun t => match t with | .link _ => .cycle | t => base.disp t
+          late := fun t x => match t with
+            | .link k => wrapApply c (match spec[k]? with | some (w, _, _) => w | Option.none => "") 
+                (cycStruct c spec fuel ((k + 1) % spec.length)) x
+            | _ => .fail }
+        match structDict c.fc env (cycFieldsOf spec i) skvs with
+        | some inst => .ok (.inst i inst)
+        | Option.none => .fail
+      | Option.none => .fail
+    | _ => .fail
+
+def cycSpecOfSexp : Sexp → Option (String × Bool × Bool)
+  | .list [.atom "c", .str w, lk, vk] => do some (w, (← bool? lk), (← bool? vk))
+  | _ => Option.none
+
 def fieldConvHandle (op : String) (args : List Sexp) : Option Sexp :=
   match op, args with
+  | "FIELDHIST", [cfg, .list (.atom "classes" :: cls), .list (.atom "steps" :: steps)] => do
+      let c ← fcfgOfSexp cfg
+      let classes ← cls.mapM clsOfSexp
+      let steps ← steps.mapM stepOfSexp
+      some (.list (.atom "r" :: histRun c (fun i => classes.getD i []) steps init))
+  | "FIELDCYCLE", [cfg, .list (.atom "cycle" :: spec), entry, payload] => do
+      let c ← fcfgOfSexp cfg
+      let spec ← spec.mapM cycSpecOfSexp
+      let i ← atomNat? entry
+      let p ← objOfSexp payload
+      match cycStruct c spec 24 i p with
+      | .ok v =>
+        let s := sexpOfObj v
+        some (if hasMark s.toString then .atom "unmodelled" else .list [.atom "ok", s])
+      | _ => some (.list [.atom "err"])
   | "FIELDCONV", [wd, cfg, .list (.atom "fields" :: ffs), payload] => do
       let w ← worldOfSexp wd
       let c ← fcfgOfSexp cfg
